@@ -24,16 +24,16 @@ const modPath = "github.com/evanw/esbuild"
 
 // Prog is the loaded, type-checked and SSA-built program for one build configuration.
 type Prog struct {
-	Config   string // e.g. linux/amd64
-	Dir      string
-	Fset     *token.FileSet
-	Pkgs     []*packages.Package
-	ByPath   map[string]*packages.Package
-	SSA      *ssa.Program
-	SSAPkg   map[string]*ssa.Package
-	AllFuncs map[*ssa.Function]bool
-	cg       *callgraph.Graph
-	funcOf   map[token.Pos]*ssa.Function // FuncDecl/FuncLit pos -> ssa function
+	Config    string // e.g. linux/amd64
+	Dir       string
+	Fset      *token.FileSet
+	Pkgs      []*packages.Package
+	ByPath    map[string]*packages.Package
+	SSA       *ssa.Program
+	SSAPkg    map[string]*ssa.Package
+	AllFuncs  map[*ssa.Function]bool
+	cg        *callgraph.Graph
+	funcOf    map[token.Pos]*ssa.Function // FuncDecl/FuncLit pos -> ssa function
 	addrTaken map[*ssa.Function]bool
 }
 
@@ -259,18 +259,18 @@ type Violation struct {
 }
 
 type RuleResult struct {
-	Name        string         `json:"rule"`
-	Doc         string         `json:"doc"`
-	Instances   int            `json:"instances"`
-	Obligations int            `json:"obligations"`
-	Discharged  int            `json:"discharged"`
-	Exceptions  int            `json:"exceptions_used"`
+	Name        string          `json:"rule"`
+	Doc         string          `json:"doc"`
+	Instances   int             `json:"instances"`
+	Obligations int             `json:"obligations"`
+	Discharged  int             `json:"discharged"`
+	Exceptions  int             `json:"exceptions_used"`
 	Nontrivial  map[string]bool `json:"-"`
-	NontrivialN int            `json:"distinct_nontrivial"`
-	Samples     []string       `json:"samples"`
-	Notes       []string       `json:"notes,omitempty"`
-	Stale       []string       `json:"stale_exceptions,omitempty"`
-	Violations  []Violation    `json:"violations,omitempty"`
+	NontrivialN int             `json:"distinct_nontrivial"`
+	Samples     []string        `json:"samples"`
+	Notes       []string        `json:"notes,omitempty"`
+	Stale       []string        `json:"stale_exceptions,omitempty"`
+	Violations  []Violation     `json:"violations,omitempty"`
 	usedExc     map[string]bool
 	prop        string
 }
